@@ -242,6 +242,8 @@ var funcs = map[string]fnSpec{
 	"math.MinInt":              {L: "(min %1 %2)", T: "Int", Arity: 2, Args: []LT{"Int", "Int"}},
 	"math.MaxInt":              {L: "(max %1 %2)", T: "Int", Arity: 2, Args: []LT{"Int", "Int"}},
 	"math.NewInt":              {L: "%1", T: "Int", Arity: 1, Args: []LT{"Int"}},
+	"math.LegacyMustNewDecFromStr": {L: "%1", T: "Dec", Arity: 1, Args: []LT{"Dec"},
+		Note: "LegacyMustNewDecFromStr(d.String()) = d: a price string that came from LegacyDec.String() is modelled by the price"},
 	"sdk.NewCoin": {L: "(Coin.mk %1 %2)", T: "Coin", Arity: 2, Args: []LT{"Denom", "Int"},
 		Note: "sdk.NewCoin panics on a negative amount (handled by the model's mkCoins)"},
 	"sdk.AccAddressFromBech32": {L: "(%1, !validAcc %1)", T: "(Acc × Err)", Arity: 1, Args: []LT{"Acc"}},
@@ -273,7 +275,7 @@ var zeroValues = map[string]V{
 
 var zeroByLean = map[LT]string{
 	"Unit": "()", "Int": "(0 : Int)", "Dec": "(0 : Dec)", "Bool": "false", "Err": "false", "Time": "(0 : Int)", "Acc": "(default : Acc)", "BRes": "(default : BRes)", "MState": "(default : MState)", "IOC": "(default : IOC)",
-	"List Bid": "[]", "List Dec": "[]", "List VQ": "[]", "List Allowed": "[]", "List AllowedArg": "[]", "List Auction": "[]",
+	"Map Dec List Bid": "(fun _ => none)", "List Bid": "[]", "List Dec": "[]", "List VQ": "[]", "List Allowed": "[]", "List AllowedArg": "[]", "List Auction": "[]",
 }
 
 type compositeSpec struct {
